@@ -47,6 +47,24 @@ def gen_c07_random(rnd, tier):
         off = rnd.choice([[0, 0, 0], [150, -90, 0], [-400, 250, 0]])
         # (guess 3: a rotation of 0.3 rad about the origin as starting guess, the points handed over turned back by it)
         out.append({'m': 'align', 'op': 'curve', 'ref': ELL, 'samples': samples, 'D': D, 'guess': guess, 'off': off, 'basin': basin})
+    # many points with a form error (704 points along the outline, offset by -2..2 sixty-fourths along the outward normal): the
+    # optimum has non-uniform residuals, so the i-th reported residual must really belong to the i-th point (not judged: recovery)
+    for _ in range(1 if tier == 'quick' else 6):
+        big = []
+        k = 0
+        for a, b in zip(ELL, ELL[1:] + ELL[:1]):
+            ex, ey = b[0] - a[0], b[1] - a[1]
+            ln = abs(ex) + abs(ey)
+            ux, uy = (ex > 0) - (ex < 0), (ey > 0) - (ey < 0)
+            nx, ny = uy, -ux                          # outward normal of the counter-clockwise outline
+            for j in range(ln * 32):
+                o = (k * 7) % 5 - 2
+                big.append([64 * a[0] + 2 * j * ux + o * nx, 64 * a[1] + 2 * j * uy + o * ny, 0])
+                k += 1
+        c, s_, h = rnd.choice([(399, -40, 401), (899, -60, 901), (1, 0, 1)])
+        D = {'M': [[c, -s_, 0], [s_, c, 0], [0, 0, h]], 'H': h, 't': [rnd.randint(-2, 2), rnd.randint(-2, 2), 0], 'tden': 8}
+        out.append({'m': 'align', 'op': 'curve', 'ref': ELL, 'samples': big, 'sden': 64, 'D': D, 'guess': rnd.randint(0, 2),
+                    'off': rnd.choice([[0, 0, 0], [150, -90, 0]]), 'basin': False})
     # 3D: the box cases of the enumerated instance with a large pre-rotation handed over as starting guess
     BOXV = [[0, 0, 0], [4, 0, 0], [0, 0, 2], [4, 0, 2], [0, 3, 0], [4, 3, 0], [0, 3, 2], [4, 3, 2]]
     BOXF = [[4, 7, 5], [4, 6, 7], [0, 2, 4], [2, 6, 4], [0, 1, 2], [1, 3, 2], [1, 5, 7], [1, 7, 3], [2, 3, 7], [2, 7, 6], [0, 4, 1], [1, 4, 5]]
